@@ -1267,11 +1267,14 @@ private:
   /***/
   QUILL_ATTRIBUTE_HOT void _flush_and_run_active_sinks(bool run_periodic_tasks, std::chrono::milliseconds sink_min_flush_interval)
   {
-    // Populate the active sinks cache with unique sinks, consider only the valid loggers
+    // Populate the active sinks cache with unique sinks. Loggers that have been invalidated by
+    // remove_logger() but are not cleaned up yet are included: their sinks are still alive and may
+    // hold statements that were written just before the removal, those must be flushed too
+    // (otherwise flush_log() returns while they are still buffered, and a sink the user keeps a
+    // reference to is never flushed again)
     _logger_manager.for_each_logger(
       [this](LoggerBase* logger)
       {
-        if (logger->is_valid_logger())
         {
           for (std::shared_ptr<Sink> const& sink : logger->sinks)
           {
@@ -1437,6 +1440,14 @@ private:
    */
   QUILL_ATTRIBUTE_HOT void _cleanup_invalidated_loggers()
   {
+    if (_logger_manager.has_invalidated_loggers())
+    {
+      // Flush the sinks before a removed logger is destroyed: a sink that outlives the logger
+      // (the user or another logger keeps a reference) would otherwise keep the logger's last
+      // statements buffered with no logger left through which flush_log() could reach it
+      _flush_and_run_active_sinks(false, std::chrono::milliseconds{0});
+    }
+
     // since there are no messages we can check for invalidated loggers and clean them up
     std::vector<std::string> const removed_loggers = _logger_manager.cleanup_invalidated_loggers(
       [this]()
